@@ -64,9 +64,24 @@ SetIterViol(e) ==
       >>
   IN {conj[i][1] : i \in {i \in 1..Len(conj) : ~conj[i][2]}}
 
+\* owned-record iterators (records(), into_records()): before every step the size hint brackets the
+\* number of items that are in fact still to come; after the end nothing more comes
+OwnedIterViol(e) ==
+  LET n == e.items
+      h == e.hints
+      \* step i (1-based) is taken when i-1 items have been yielded (the last two steps report the end)
+      rem(i) == IF i - 1 <= n THEN n - (i - 1) ELSE 0
+      conj == <<
+        <<"owned_iterator_size_hint_lower_bound", \A i \in 1..Len(h) : h[i][1] <= rem(i)>>,
+        <<"owned_iterator_size_hint_upper_bound", \A i \in 1..Len(h) : h[i][2] = -1 \/ h[i][2] >= rem(i)>>,
+        <<"owned_iterator_fused", Len(h) = n + 2>>
+      >>
+  IN {conj[i][1] : i \in {i \in 1..Len(conj) : ~conj[i][2]}}
+
 Next == /\ l <= Len(Rec)
         /\ LET e == Rec[l]
-               v == CASE e.ev = "seqlines" -> SeqLinesViol(e) [] e.ev = "adapt" -> AdaptViol(e) [] e.ev = "setiter" -> SetIterViol(e) [] OTHER -> {}
+               v == CASE e.ev = "seqlines" -> SeqLinesViol(e) [] e.ev = "adapt" -> AdaptViol(e) [] e.ev = "setiter" -> SetIterViol(e)
+                        [] e.ev = "ownediter" -> OwnedIterViol(e) [] OTHER -> {}
            IN v # {} => PrintT(<<"MISMATCH", ToJson([kind |-> e.ev, line |-> l, run |-> l, props |-> {"C20"}, why |-> v, extra |-> [ev |-> e.ev]])>>)
         /\ l' = l + 1
 Spec == Init /\ [][Next]_l
